@@ -47,6 +47,8 @@ class Gen:
         # statement weights: assign, loop, while, jump, stop, macro
         "plain": (46, 16, 10, 12, 4, 8), "macroheavy": (30, 8, 4, 6, 2, 50), "loops": (34, 40, 6, 8, 2, 10),
         "jumps": (34, 18, 10, 30, 4, 4), "calls": (60, 12, 6, 8, 4, 10),
+        # nested uses of macros whose bodies contain LOOPs over temporaries (REPEAT in REPEAT in IF ...)
+        "repeats": (34, 6, 4, 4, 2, 50),
     }
 
     def __init__(self, seed, macros=False, gotos=True, whiles=True, calls=True, diverge=0.03, big=False, profile="plain"):
@@ -66,7 +68,7 @@ class Gen:
             w[5] = 0
         self.cum = [sum(w[:i + 1]) / float(sum(w)) for i in range(6)]
         self.maxdepth = 3
-        self.macrodepth = 3 if profile == "macroheavy" else 2
+        self.macrodepth = 3 if profile in ("macroheavy", "repeats") else 2
 
     # ---- values -------------------------------------------------------------------------------
     def simple(self, vs):
@@ -143,13 +145,14 @@ class Gen:
                 st = {"k": "stop"}
             elif depth < self.macrodepth:
                 self.hid += 1
-                kind = r.choice(["ifelse", "ifelse", "repeat", "skip", "double"])
+                kind = r.choice(["repeat", "repeat", "repeat", "ifelse", "double"] if self.profile == "repeats"
+                                else ["ifelse", "ifelse", "repeat", "skip", "double"])
                 if kind == "ifelse":
                     st = {"k": "ifelse", "h": self.hid, "v": self.slotvalue(vs, routines),
                           "then": self.block(vs, routines, depth + 1, r.randint(1, 2), True),
                           "else": self.block(vs, routines, depth + 1, r.randint(1, 2), True)}
                 elif kind == "repeat":
-                    st = {"k": "repeat", "h": self.hid, "c": r.choice([0, 1, 2, 3]),
+                    st = {"k": "repeat", "h": self.hid, "c": r.choice([1, 2, 3] if self.profile == "repeats" else [0, 1, 2, 3]),
                           "body": self.block(vs, routines, depth + 1, r.randint(1, 2), True)}
                 elif kind == "double":
                     st = {"k": "double", "h": self.hid, "x": r.choice(vs)}
@@ -173,6 +176,7 @@ class Gen:
         vs = params + ["x0", "t"]
         hasout = bool(params) and r.random() < 0.6       # OUT is only available after IN in the grammar
         out = r.choice(params + ["t", "x0"]) if hasout else "x0"
+        self.lab = 0                                     # mark names are local to a program: every routine (and the main part) reuses M1, M2, ...
         body = self.block(vs, list(routines), 0, r.randint(1, 4))
         return {"name": name, "params": params, "out": out, "hasout": hasout, "body": body}
 
@@ -185,6 +189,7 @@ class Gen:
             if i > 0 and r.random() < 0.15:
                 name = "f%d" % r.randrange(i)            # redefinition of an earlier name
             routines.append(self.routine(name, routines))
+        self.lab = 0
         main = self.block(["x", "y", "z"], routines, 0, r.randint(2, 7 if self.big else 6))
         prog = {"routines": routines, "main": main}
         for body in [rt["body"] for rt in routines] + [main]:
@@ -577,7 +582,7 @@ def gen_canon(seed, nfiles=None, **kw):
 
 def gen_free(seed, nfiles=None, **kw):
     r = random.Random(seed * 104729 + 3)
-    kw.setdefault("profile", r.choice(["plain", "plain", "macroheavy", "loops", "jumps", "calls"]))
+    kw.setdefault("profile", r.choice(["plain", "plain", "macroheavy", "loops", "jumps", "calls", "repeats"]))
     g = Gen(seed, macros=True, **kw)
     prog = g.program()
     nf = r.choice([0, 1, 2, 3]) if nfiles is None else nfiles
@@ -586,6 +591,28 @@ def gen_free(seed, nfiles=None, **kw):
     ast = make_ast(prog)
     ast["canon"] = False
     return {"files": files, "main": main, "ast": ast, "canon": False, "tokmap": sorted(tokmap)}
+
+
+def gen_static_error(seed):
+    """a generated source in free layout over several files whose only faults are static ones (a jump to a mark that is never set,
+    a call of an unknown program, one argument too many) placed in a routine body or in the main part: the error locations come from
+    code generation, whose notion of the current position crosses file boundaries"""
+    r = random.Random(seed * 15485863 + 5)
+    g = Gen(seed, macros=r.random() < 0.4, profile=r.choice(["plain", "calls", "loops"]), diverge=0.0)
+    prog = g.program()
+    bodies = [rt["body"] for rt in prog["routines"] if rt["name"] not in ("add", "mul")] + [prog["main"]]
+    for _ in range(r.randint(1, 2)):
+        body = r.choice(bodies)
+        kind = r.random()
+        if kind < 0.6:
+            st = {"k": "goto", "to": "NOMARK%d" % r.randrange(3), "labels": []}
+        elif kind < 0.8:
+            st = {"k": "assign", "x": "x0", "v": {"k": "call", "f": "nosuch", "args": [{"k": "var", "x": "x0"}]}, "labels": []}
+        else:
+            st = {"k": "if", "x": "x0", "c": 0, "to": "NOMARK9", "labels": []}
+        body.insert(r.randrange(len(body) + 1), st)
+    files, main, _ = render_free(prog, r, r.choice([1, 2, 3]), lib_in_file=r.random() < 0.7, style=r.choice(["normal", "sparse", "sparse", "dense"]))
+    return {"files": files, "main": main}
 
 
 if __name__ == "__main__":
